@@ -56,7 +56,7 @@ def cases(draw):
         a = draw(mibgen.layouts(len(toks)))
         b = draw(mibgen.layouts(len(toks)))
         lay.append([a, b])
-    alt = draw(st.text(alphabet='abcxyz 019:=|\n\t,', min_size=1, max_size=20))
+    alt = draw(mibgen.ctext('abcxyz 019:=|\n\t,', min_size=1, max_size=20))
     return {'mset': mset, 'layouts': lay, 'altbody': alt}
 
 
